@@ -252,13 +252,13 @@ def _cls(op, err):
 
 
 # ---- facade ------------------------------------------------------------------------------------------------
-F_NAMES = [("emphasis",), ("table",), ("nope",), ("emphasis", "nope"), ("nope", "table"), "strikethrough"]
+F_NAMES = [("emphasis",), ("table",), ("nope",), ("emphasis", "nope"), ("nope", "table"), "strikethrough", ("code",)]
 BAD_PRESET = {"options": {"maxNesting": 20, "html": False, "linkify": False, "typographer": False, "quotes": "“”‘’",
                           "xhtmlOut": False, "breaks": False, "langPrefix": "language-", "highlight": None},
               "components": {"core": {"rules": ["normalize", "block", "inline", "text_join"]},
                              "block": {"rules": ["paragraph", "list"]},
                              "inline": {"rules": ["text", "emphasis", "nope"], "rules2": ["balance_pairs", "emphasis", "fragments_join"]}}}
-PROBE = "*a* ~~b~~ `c`\n\n|a|\n|-|\n\n> q\n\n- l\n"
+PROBE = "*a* ~~b~~ `c`\n\n|a|\n|-|\n\n> q\n\n- l\n\n    # indented\n"
 
 
 def f_ops(quick):
